@@ -198,7 +198,10 @@ class Form(Node):
 
         if e < 1:
             # Ellipse
-            if -np.pi < M < 0 or M > np.pi:
+            # The eccentric anomaly lies after M in the first half of each
+            # revolution and before it in the second half, whatever the
+            # number of revolutions M contains
+            if sin(M) < 0:
                 E = M - e
             else:
                 E = M + e
